@@ -356,6 +356,56 @@ def canary_runs(chk, n):
                                   f"request {r['method']} {r['path']} has cookie sid={r['cookies'].get('sid')!r}", ctx)
 
 
+SECURED_RAW = {
+    "openapi": "3.0.2", "info": {"title": "t", "version": "1"},
+    "components": {"securitySchemes": {"bearer": {"type": "http", "scheme": "bearer"}}},
+    "security": [{"bearer": []}],
+    "paths": {f"/s{i}": {"get": {"parameters": [{"name": "q", "in": "query", "schema": {"type": "integer"}}],
+                                 "responses": {"200": {"description": "ok"}, "401": {"description": "no"}}}} for i in range(3)},
+}
+
+
+def probe_runs(chk, n):
+    """`ignored_auth` deliberately strips credentials for its own probes (the sanctioned exception); every *other*
+    request — before and after a probe — must still carry the user's Authorization header"""
+    from flask import Flask, jsonify, request
+    from schemathesis.engine.config import EngineConfig, NetworkConfig
+    from schemathesis.engine.phases import PhaseName
+    from schemathesis.specs.openapi.checks import ignored_auth
+    rng = chk.rng
+    for _ in range(n):
+        log: list = []
+        app = Flask("secured")
+
+        @app.route("/<path:p>", methods=["GET"])
+        def any_(p):
+            auth = request.headers.get("Authorization")
+            log.append({"path": "/" + p, "auth": auth, "case": request.headers.get("X-Schemathesis-TestCaseId")})
+            return (jsonify({}), 200) if auth == "Bearer CANARY-TOKEN" else (jsonify({}), 401)
+        workers = rng.choice([1, 2])
+        with E.Server(app) as srv:
+            schema = E.load_schema(srv.url, raw=SECURED_RAW)
+            base = E.engine_config(phases=[PhaseName.COVERAGE, PhaseName.FUZZING], workers=workers, max_examples=4,
+                                   seed=rng.randint(1, 9999), checks=[ignored_auth])
+            cfg = EngineConfig(execution=base.execution, network=NetworkConfig(headers={"Authorization": "Bearer CANARY-TOKEN"}))
+            evs = E.run_engine(schema, cfg)
+        probe_ids = set()
+        for ev in evs:
+            if type(ev).__name__ == "ScenarioFinished":
+                for cid, node in ev.recorder.cases.items():
+                    if node.parent_id is not None and node.transition is None:
+                        probe_ids.add(cid)
+        regular = [r for r in log if r["case"] not in probe_ids]
+        wrong = [r for r in regular if r["auth"] != "Bearer CANARY-TOKEN"]
+        chk.case("probes:engine-run", key=[workers, len(log), len(probe_ids)], nontrivial=bool(probe_ids),
+                 sample={"workers": workers, "requests": len(log), "probe_requests": len(log) - len(regular)})
+        chk.feature(f"probe-requests:{'some' if probe_ids else 'none'}")
+        if wrong:
+            chk.violation("C14:request:user-credential-missing-on-a-regular-request-after-auth-probes",
+                          f"{len(wrong)} of {len(regular)} regular (non-probe) requests do not carry the configured "
+                          f"Authorization header, e.g. {wrong[0]}", {"wrong": wrong[:5], "probe_requests": len(log) - len(regular)})
+
+
 def run(chk):
     chk.proved += ["prepare_headers_user_wins / prepare_headers_keeps_case", "update_wins / update_keeps / "
                    "explicit_survives_merge / override_wins", "strategy_headers_complete", "test_storage_first / "
@@ -372,6 +422,7 @@ def run(chk):
     storage_corr(chk, chk.budget(200, 3000))
     cache_threads(chk, chk.budget(4, 30))
     canary_runs(chk, chk.budget(6, 60))
+    probe_runs(chk, chk.budget(3, 30))
 
 
 def replay(chk, data):
